@@ -263,7 +263,28 @@ func TestC11(t *testing.T) {
 		cc := genC11(rt, c)
 		c.Count("kind." + cc.kind.String())
 		c.Count("overlap." + cc.overlap)
-		cs := caseOf(baseConfig(), []string{cc.file.RelPath}, cc.file)
+		files := []*model.File{cc.file}
+		var scen []string
+		switch rapid.IntRange(0, 5).Draw(rt, "scenario") {
+		case 0:
+			scen = addMixinScenario(rt, c, cc.file)
+		case 1:
+			files = append(files, addSameLocalRefSibling(rt, c, cc.file, cc.kind))
+			scen = []string{"ownitem", "sibling"}
+		}
+		// scenario properties stay optional: the documents of the main list do not carry them
+		var req []string
+		for _, r := range cc.file.Root.Required {
+			keep := true
+			for _, sname := range scen {
+				keep = keep && r != sname
+			}
+			if keep {
+				req = append(req, r)
+			}
+		}
+		cc.file.Root.Required = req
+		cs := caseOf(baseConfig(), []string{cc.file.RelPath}, files...)
 		var jobs []core.Job
 		n := len(cc.branches)
 		seen := map[string]bool{}
@@ -375,9 +396,81 @@ func TestC11(t *testing.T) {
 				}
 			}
 		}
+		// directed scenarios next to the main list: a mixin definition used at two levels of nested
+		// allOf lists (or twice in one list), and a sibling file whose list uses the same local
+		// reference text for its own, different definition
+		if len(scen) > 0 {
+			jobs = append(jobs, scenarioJobs(rt, c, cc.file.Root, scen, o)...)
+		}
 		c.Sample(sampleOf(cs, jobs))
 		return &RunCase{Case: cs, Jobs: jobs}
 	}, stdJudge)
+}
+
+// addMixinScenario: definition Audited referenced by an outer allOf list and
+// again by an allOf list inside a property of that list's other branch, or
+// twice by one list. Returns the root property names it added.
+func addMixinScenario(t *rapid.T, c *core.Ctx, f *model.File) []string {
+	one := 1
+	audited := &model.Node{Kind: model.KObject, Props: []model.Prop{
+		{Name: "createdBy", Node: &model.Node{Kind: model.KString, MinLength: &one}},
+		{Name: "rev", Node: &model.Node{Kind: model.KInteger}},
+	}, Required: []string{"createdBy"}}
+	f.Defs = append(f.Defs, model.Def{Name: "Audited", Node: audited})
+	ref := func() *model.Node { return &model.Node{Kind: model.KRef, Ref: "#/$defs/Audited", Target: audited} }
+	var node *model.Node
+	if rapid.IntRange(0, 2).Draw(t, "mixintwice") == 0 {
+		node = &model.Node{Kind: model.KAllOf, Branches: []*model.Node{ref(), ref()}}
+		c.Count("shape.mixin_twice_in_one_list")
+	} else {
+		innerExtra := &model.Node{Kind: model.KObject, Props: []model.Prop{{Name: "note", Node: &model.Node{Kind: model.KString}}}, Required: []string{"note"}}
+		inner := &model.Node{Kind: model.KAllOf, Branches: []*model.Node{ref(), innerExtra}}
+		outerExtra := &model.Node{Kind: model.KObject, Props: []model.Prop{{Name: "inner", Node: inner}, {Name: "label", Node: &model.Node{Kind: model.KString}}}, Required: []string{"inner"}}
+		node = &model.Node{Kind: model.KAllOf, Branches: []*model.Node{ref(), outerExtra}}
+		if rapid.Bool().Draw(t, "mixinswap") {
+			node.Branches[0], node.Branches[1] = node.Branches[1], node.Branches[0]
+		}
+		c.Count("shape.mixin_at_two_levels")
+	}
+	f.Root.Props = append(f.Root.Props, model.Prop{Name: "zmix", Node: node})
+	f.Root.Required = append(f.Root.Required, "zmix")
+	return []string{"zmix"}
+}
+
+// scenarioJobs: one valid document of the whole root plus the single-fault
+// mutants (type, required, numeric, string) that sit below the named root
+// properties.
+func scenarioJobs(t *rapid.T, c *core.Ctx, root *model.Node, props []string, o *docs.Opts) []core.Job {
+	var jobs []core.Job
+	oo := *o
+	oo.AllProps = true
+	for k := 0; k < 2; k++ {
+		v, ok := docs.Valid(t, root, &oo)
+		if !ok || !oracle.Accepts(root, v) {
+			c.Count("doc.scenario.no_valid")
+			continue
+		}
+		jobs = append(jobs, core.Job{Type: progRoot, Op: "json", Doc: string(v.Marshal()), Expect: "accept", ExpectVal: expJSON(docs.Expect(root, v)), Label: "scenario:valid"})
+		c.Count("doc.scenario.valid")
+		muts, _ := docs.Mutants(t, root, v, map[string]bool{"type": true, "required": true, "numeric": true, "string": true}, o)
+		n := 0
+		for i := range muts {
+			m := &muts[i]
+			under := false
+			for _, p := range props {
+				if m.Path == "/"+p || strings.HasPrefix(m.Path, "/"+p+"/") {
+					under = true
+				}
+			}
+			if !under || n >= 80 {
+				continue
+			}
+			n++
+			jobs = append(jobs, core.Job{Type: progRoot, Op: "json", Doc: string(m.Doc.Marshal()), Expect: "reject", Rule: m.Rule() + "@" + m.Path, Label: "scenario:" + strings.SplitN(m.Label, "<-", 2)[0]})
+			c.Count("doc.scenario.reject")
+		}
+	}
+	return jobs
 }
 
 func allTrue(n int) []bool {
